@@ -24,8 +24,9 @@
 (*     must reproduce bytes and view (JSON equality) before allsorts is    *)
 (*     run on the bytes and the observation handed to Trace_FaultModel.    *)
 (*                                                                         *)
-(* t = "val":  value class vectors (old bytes, file length, table length   *)
-(*     -> new bytes) binding the harness' value classes to NewValue.       *)
+(* t = "val":  value class vectors (old bytes, file length, table length,  *)
+(*     references, bytes of the previous / next element -> new bytes)      *)
+(*     binding the harness' value classes to NewValue.                     *)
 (***************************************************************************)
 EXTENDS FaultModel, Json
 
@@ -47,7 +48,7 @@ AbsSingles ==
   \cup {A("ShrinkLength", "length", "", "dir", "", m) : m \in ShrinkModes}
   \cup {A("SwapTables", "offset", "", "dir", "", "")}
 
-ReducedVC == {"zero", "max", "hi80", "inc", "filelen", "self"}
+ReducedVC == {"zero", "max", "hi80", "inc", "filelen", "self", "eqnext"}
 AbsDirReduced ==
        {x \in {A("Overwrite", r, v, "dir", "", "") : r \in Roles, v \in ReducedVC} : ClassApplies(x.vc, x.role)}
   \cup {A("Truncate", r, "", "dir", w, "") : r \in Roles, w \in TruncWhere}
@@ -70,18 +71,25 @@ BaseFile(kind) ==
     [] kind = "woff" -> S!WriteWoff(Tables, [flavor |-> S!MagicOTTO, dir |-> Dir2], <<1, 2>>, Gaps, {2})
 Kinds == {"sfnt", "ttc", "woff"}
 
-\* fields of the model files: [off, w, role, level, rec, tlen, sv, pv]
+\* fields of the model files: [off, w, role, level, rec, tlen, sv, pv, po, no]
 \*   sv / pv (offset fields): offset of the structure that contains the field / of that structure's
 \*   parent, -1 = none.  A directory record sits in its directory (sv = where the directory starts:
 \*   the table would be the directory itself), the directory of a collection member or of a WOFF file
 \*   hangs off the file header (pv = 0); a member offset of the collection header sits in that header.
-FdR(off, w, role, level, rec, tlen, sv, pv) == [off |-> off, w |-> w, role |-> role, level |-> level, rec |-> rec, tlen |-> tlen, sv |-> sv, pv |-> pv]
+\*   po / no (fields that are elements of an array): position of the same member of the previous / next
+\*   record (directory records, member offsets of the collection header), -1 = none.
+FdS(off, w, role, level, rec, tlen, sv, pv, po, no) == [off |-> off, w |-> w, role |-> role, level |-> level, rec |-> rec, tlen |-> tlen, sv |-> sv, pv |-> pv, po |-> po, no |-> no]
+FdR(off, w, role, level, rec, tlen, sv, pv) == FdS(off, w, role, level, rec, tlen, sv, pv, -1, -1)
 Fd(off, w, role, level, rec, tlen) == FdR(off, w, role, level, rec, tlen, -1, -1)
+\* member at `off` of record k of n records of `size` bytes
+Po(off, k, size)    == IF k > 0 THEN off - size ELSE -1
+No(off, k, n, size) == IF k < n - 1 THEN off + size ELSE -1
 
 SfntDirFields(at, n, flen, r0, par) ==
        {Fd(at, 4, "version", "dir", 0, flen), Fd(at + 4, 2, "count", "dir", 0, flen), Fd(at + 6, 2, "value", "dir", 0, flen)}
-  \cup UNION {{Fd(at + 12 + 16 * k, 4, "index", "dir", r0 + k + 1, flen), Fd(at + 12 + 16 * k + 4, 4, "value", "dir", r0 + k + 1, flen),
-               FdR(at + 12 + 16 * k + 8, 4, "offset", "dir", r0 + k + 1, flen, at, par), Fd(at + 12 + 16 * k + 12, 4, "length", "dir", r0 + k + 1, flen)} :
+  \cup UNION {LET M(o, role, sv, pv) == FdS(at + 12 + 16 * k + o, 4, role, "dir", r0 + k + 1, flen, sv, pv,
+                                            Po(at + 12 + 16 * k + o, k, 16), No(at + 12 + 16 * k + o, k, n, 16))
+              IN {M(0, "index", -1, -1), M(4, "value", -1, -1), M(8, "offset", at, par), M(12, "length", -1, -1)} :
               k \in 0 .. (n - 1)}
 
 FieldsOf(kind) ==
@@ -91,14 +99,15 @@ FieldsOf(kind) ==
          \cup {Fd(S!Rd32(bs, 12 + 8), 2, "value", "table", 0, 3), Fd(S!Rd32(bs, 28 + 8) + 1, 1, "count", "table", 0, 5)}
     [] kind = "ttc" ->
          {Fd(0, 4, "version", "dir", 0, flen), Fd(4, 2, "version", "dir", 0, flen), Fd(8, 4, "count", "dir", 0, flen),
-          FdR(12, 4, "offset", "dir", 0, flen, 0, -1), FdR(16, 4, "offset", "dir", 0, flen, 0, -1)}
+          FdS(12, 4, "offset", "dir", 0, flen, 0, -1, -1, 16), FdS(16, 4, "offset", "dir", 0, flen, 0, -1, 12, -1)}
          \cup SfntDirFields(S!Rd32(bs, 12), 2, flen, 0, 0)
          \cup {Fd(S!Rd32(bs, 16) + 4, 2, "count", "dir", 0, flen)}
     [] kind = "woff" ->
          {Fd(0, 4, "version", "dir", 0, flen), Fd(4, 4, "version", "dir", 0, flen), Fd(8, 4, "length", "dir", 0, flen),
           Fd(12, 2, "count", "dir", 0, flen), Fd(14, 2, "value", "dir", 0, flen), Fd(16, 4, "length", "dir", 0, flen)}
-         \cup UNION {{Fd(44 + 20 * k, 4, "index", "dir", k + 1, flen), FdR(44 + 20 * k + 4, 4, "offset", "dir", k + 1, flen, 44, 0),
-                      Fd(44 + 20 * k + 8, 4, "length", "dir", k + 1, flen), Fd(44 + 20 * k + 12, 4, "length", "dir", k + 1, flen)} :
+         \cup UNION {LET M(o, role, sv, pv) == FdS(44 + 20 * k + o, 4, role, "dir", k + 1, flen, sv, pv,
+                                                   Po(44 + 20 * k + o, k, 20), No(44 + 20 * k + o, k, 2, 20))
+                     IN {M(0, "index", -1, -1), M(4, "offset", 44, 0), M(8, "length", -1, -1), M(12, "length", -1, -1)} :
                      k \in 0 .. 1}
          \cup {Fd(S!Rd32(bs, 64 + 4), 1, "version", "table", 0, 16), Fd(S!Rd32(bs, 64 + 4) + 3, 2, "length", "table", 0, 16)}
 
@@ -111,10 +120,13 @@ RecsOf(kind) ==
     [] kind = "woff" -> {[rec |-> 44 + 20 * k, size |-> 20, cnt |-> 12, idx |-> k, n |-> 2, offField |-> 44 + 20 * k + 4, lenField |-> 44 + 20 * k + 8] : k \in 0 .. 1}
 
 \* concrete faults; `rec` and `role` are kept for the non-interference lemma
-Ov(f, vc)  == [k |-> "Overwrite", off |-> f.off, w |-> f.w, vc |-> vc, tlen |-> f.tlen, rec |-> f.rec, role |-> f.role, sv |-> f.sv, pv |-> f.pv]
+Ov(f, vc)  == [k |-> "Overwrite", off |-> f.off, w |-> f.w, vc |-> vc, tlen |-> f.tlen, rec |-> f.rec, role |-> f.role, sv |-> f.sv, pv |-> f.pv,
+               po |-> f.po, no |-> f.no]
+\* a relational class is instantiated on a field that has that sibling
+HasSib(vc, po, no) == (vc \in PrevClasses => po >= 0) /\ (vc \in NextClasses => no >= 0)
 FaultsOf(kind) ==
   LET fs == FieldsOf(kind)  rs == RecsOf(kind) IN
-       {x \in {Ov(f, vc) : f \in fs, vc \in ValueClasses} : ClassApplies(x.vc, x.role) /\ HasRef(x.vc, x.sv, x.pv)}
+       {x \in {Ov(f, vc) : f \in fs, vc \in ValueClasses} : ClassApplies(x.vc, x.role) /\ HasRef(x.vc, x.sv, x.pv) /\ HasSib(x.vc, x.po, x.no)}
   \cup {[k |-> "Truncate", at |-> f.off] : f \in fs} \cup {[k |-> "Truncate", at |-> f.off + 1] : f \in fs}
   \cup {[k |-> "RemoveTable", rec |-> r.rec, size |-> r.size, cnt |-> r.cnt, idx |-> r.idx, n |-> r.n] : r \in rs}
   \cup {[k |-> "ShrinkLength", off |-> r.lenField, mode |-> m] : r \in rs, m \in ShrinkModes}
@@ -131,11 +143,14 @@ Olds ==  {<<0>>, <<255>>, <<127>>, <<128>>, <<0, 0>>, <<255, 255>>, <<127, 255>>
                                    <<1, 2, 3>>, <<255, 255, 255>>, <<0, 0, 0, 0>>, <<255, 255, 255, 255>>, <<127, 255, 255, 255>>,
                                    <<128, 0, 0, 0>>, <<0, 1, 255, 255>>, <<0, 0, 0, 0, 0, 0, 0, 0>>, <<0, 0, 0, 0, 255, 255, 255, 255>>,
                                    <<255, 255, 255, 255, 255, 255, 255, 255>>}
+\* relational classes: the siblings are every pair of byte strings of Olds that have the width of the field
 ValCases ==
-       {[t |-> "val", vc |-> vc, old |-> old, flen |-> fl, tlen |-> tl, sv |-> 0, pv |-> 0] :
+       {[t |-> "val", vc |-> vc, old |-> old, flen |-> fl, tlen |-> tl, sv |-> 0, pv |-> 0, pb |-> <<>>, nb |-> <<>>] :
           vc \in ByteClasses, old \in Olds, fl \in {0, 53, 65536, 16909060}, tl \in {0, 255, 70000}}
-  \cup {[t |-> "val", vc |-> vc, old |-> old, flen |-> 53, tlen |-> 255, sv |-> sv, pv |-> pv] :
+  \cup {[t |-> "val", vc |-> vc, old |-> old, flen |-> 53, tlen |-> 255, sv |-> sv, pv |-> pv, pb |-> <<>>, nb |-> <<>>] :
           vc \in RefClasses, old \in Olds, sv \in {0, 5, 300, 70000, 16909060}, pv \in {0, 44, 65535, 65536}}
+  \cup UNION {{[t |-> "val", vc |-> vc, old |-> old, flen |-> 53, tlen |-> 255, sv |-> -1, pv |-> -1, pb |-> pb, nb |-> nb] :
+                 vc \in RelClasses, pb \in {x \in Olds : Len(x) = Len(old)}, nb \in {x \in Olds : Len(x) = Len(old)}} : old \in Olds}
 
 \* Cases are reached in two steps so that TLC's workers share the work: Init picks a root (the first
 \* fault of a sequence, or a value class), Next completes it.
@@ -168,13 +183,29 @@ Next == ~done /\ done' = TRUE /\ c' \in Expand(c)
 Spec == Init /\ [][Next]_vars
 
 ---------------------------------------------------------------------------
+\* what a relational class promises about the new value `new` of a field of width w, stated on the
+\* relation itself and not on the way NewValue computes it: new and the sibling are equal; one step
+\* apart (in the arithmetic of the field's width); their sum is exactly 2^(8w) (wraps to zero) or
+\* exactly 2^(8w-1) (one above the largest signed number of that width)
+RelHolds(vc, w, new, pb, nb) ==
+  LET s == IF vc \in PrevClasses THEN pb ELSE nb IN
+  /\ Len(new) = w /\ Len(s) = w
+  /\ CASE vc \in {"eqprev", "eqnext"}         -> new = s
+        [] vc \in {"prev+1", "next+1"}         -> Dec(new) = s /\ AddC(s, BytesOf(1, w), 0) = new
+        [] vc \in {"prev-1", "next-1"}         -> Inc(new) = s /\ AddC(new, BytesOf(1, w), 0) = s
+        [] vc \in {"uwrap-prev", "uwrap-next"} -> AddC(new, s, 0) = Zeros(w) /\ (s # Zeros(w) => new # Zeros(w))
+        [] vc \in {"swrap-prev", "swrap-next"} -> AddC(new, s, 0) = Hi80(w)
+
+---------------------------------------------------------------------------
 \* the model's own lemmas, checked on every file case (one evaluation of the faulted file, its view
 \* and its expectation per case; Assert names the lemma that fails)
 LemmasAndEmit ==
   done =>
     CASE c.t = "gen"  -> PrintT(<<"CASE", ToJson(c)>>)
-      [] c.t = "val"  -> PrintT(<<"VAL", ToJson([vc |-> c.vc, old |-> c.old, flen |-> c.flen, tlen |-> c.tlen, sv |-> c.sv, pv |-> c.pv,
-                                                  new |-> NewValue(c.vc, c.old, c.flen, c.tlen, c.sv, c.pv)])>>)
+      [] c.t = "val"  -> /\ Assert(c.vc \in RelClasses => RelHolds(c.vc, Len(c.old), NewValue(c.vc, c.old, c.flen, c.tlen, c.sv, c.pv, c.pb, c.nb), c.pb, c.nb), "LemmaRelValue")
+                         /\ PrintT(<<"VAL", ToJson([vc |-> c.vc, old |-> c.old, flen |-> c.flen, tlen |-> c.tlen, sv |-> c.sv, pv |-> c.pv,
+                                                     pb |-> c.pb, nb |-> c.nb,
+                                                     new |-> NewValue(c.vc, c.old, c.flen, c.tlen, c.sv, c.pv, c.pb, c.nb)])>>)
       [] c.t = "file" ->
            LET base == BaseFile(c.kind)
                bs   == ApplySeq(base, c.seq)
@@ -204,14 +235,45 @@ LemmasAndEmit ==
                            /\ n >= 0 /\ Window(bs, f.off, f.w) = BytesOf(n, f.w)
                            /\ (f.rec > 0 /\ e.read = "Ok" /\ f.rec <= Len(e.font.tabs)) => e.font.tabs[f.rec].off = n,
                         "LemmaRef")
+              \* a single relational-class overwrite puts the field into the promised relation with its sibling as the
+              \* sibling stands in the file; two directory records made to share a tag leave exactly the first of them
+              \* reachable by that tag; a record whose offset / length is its neighbour's names the bytes its neighbour starts at
+              /\ Assert((Len(c.seq) = 1 /\ c.seq[1].k = "Overwrite" /\ c.seq[1].vc \in RelClasses) =>
+                           LET f  == c.seq[1]
+                               sp == IF f.vc \in PrevClasses THEN f.po ELSE f.no
+                               q  == IF f.vc \in PrevClasses THEN f.rec - 1 ELSE f.rec + 1        \* the sibling record
+                               e0 == ContainerExpect(ViewOf(base))
+                           IN /\ sp >= 0 /\ Window(bs, sp, f.w) = Window(base, sp, f.w)
+                              /\ RelHolds(f.vc, f.w, Window(bs, f.off, f.w), Sibling(bs, f.po, f.w), Sibling(bs, f.no, f.w))
+                              /\ (f.rec > 0 /\ e.read = "Ok" /\ e0.read = "Ok" /\ Len(e.font.tabs) = Len(e0.font.tabs) /\ q >= 1 /\ q <= Len(e.font.tabs)
+                                   /\ f.rec <= Len(e.font.tabs)) =>
+                                    /\ (f.role = "offset" /\ f.vc \in {"eqprev", "eqnext"}) => e.font.tabs[f.rec].off = e0.font.tabs[q].off
+                                    /\ (f.role = "index" /\ f.vc \in {"eqprev", "eqnext"}) =>
+                                          /\ e.font.tags[f.rec] = e.font.tags[q]
+                                          /\ e.font.tabs[IF q < f.rec THEN q ELSE f.rec].first
+                                          /\ ~e.font.tabs[IF q < f.rec THEN f.rec ELSE q].first,
+                        "LemmaRel")
               /\ PrintT(<<"FILE", ToJson([kind |-> c.kind, base |-> base, seq |-> c.seq, bytes |-> bs, view |-> v])>>)
 
 Sanity ==
-  /\ NewValue("dec", <<0, 0>>, 0, 0, -1, -1) = <<255, 255>>
-  /\ NewValue("dbl", <<128, 1>>, 0, 0, -1, -1) = <<0, 2>>
-  /\ NewValue("filelen", <<9, 9>>, 65537, 0, -1, -1) = <<0, 1>>
-  /\ NewValue("self", <<9, 9>>, 0, 0, 258, -1) = <<1, 2>>
-  /\ NewValue("parent", <<9>>, 0, 0, 7, 300) = <<44>>
+  /\ NewValue("dec", <<0, 0>>, 0, 0, -1, -1, <<>>, <<>>) = <<255, 255>>
+  /\ NewValue("dbl", <<128, 1>>, 0, 0, -1, -1, <<>>, <<>>) = <<0, 2>>
+  /\ NewValue("filelen", <<9, 9>>, 65537, 0, -1, -1, <<>>, <<>>) = <<0, 1>>
+  /\ NewValue("self", <<9, 9>>, 0, 0, 258, -1, <<>>, <<>>) = <<1, 2>>
+  /\ NewValue("parent", <<9>>, 0, 0, 7, 300, <<>>, <<>>) = <<44>>
+  /\ NewValue("eqprev", <<9, 9>>, 0, 0, -1, -1, <<1, 2>>, <<3, 4>>) = <<1, 2>>
+  /\ NewValue("eqnext", <<9, 9>>, 0, 0, -1, -1, <<1, 2>>, <<3, 4>>) = <<3, 4>>
+  /\ NewValue("prev+1", <<9, 9>>, 0, 0, -1, -1, <<1, 255>>, <<3, 4>>) = <<2, 0>>
+  /\ NewValue("next-1", <<9, 9>>, 0, 0, -1, -1, <<1, 2>>, <<3, 0>>) = <<2, 255>>
+  /\ NewValue("prev-1", <<9>>, 0, 0, -1, -1, <<0>>, <<3>>) = <<255>>
+  /\ NewValue("next+1", <<9>>, 0, 0, -1, -1, <<0>>, <<255>>) = <<0>>
+  /\ NewValue("uwrap-next", <<9, 9>>, 0, 0, -1, -1, <<>>, <<0, 5>>) = <<255, 251>>
+  /\ NewValue("uwrap-prev", <<9, 9>>, 0, 0, -1, -1, <<0, 0>>, <<>>) = <<0, 0>>
+  /\ NewValue("swrap-prev", <<9, 9>>, 0, 0, -1, -1, <<0, 5>>, <<>>) = <<127, 251>>       \* 0x7ffb + 5 = 0x8000
+  /\ NewValue("swrap-next", <<9, 9>>, 0, 0, -1, -1, <<>>, <<255, 156>>) = <<128, 100>>   \* -32668 + (-100) = -32768
+  /\ HasRel("eqprev", 2, <<1, 2>>, <<>>) /\ ~HasRel("eqnext", 2, <<1, 2>>, <<>>) /\ HasRel("max", 2, <<>>, <<>>)
+  /\ ClassApplies("eqnext", "value") /\ ~ClassApplies("eqnext", "version") /\ ~ClassApplies("self", "value")
+  /\ PrevClasses \cap NextClasses = {} /\ Cardinality(RelClasses) = 10
   /\ ClassApplies("self", "offset") /\ ~ClassApplies("parent", "count") /\ ClassApplies("max", "count")
   /\ ~HasRef("self", -1, 3) /\ HasRef("zero", -1, -1)
   /\ Half(<<1, 0, 0, 1>>) = <<0, 128, 0, 0>>
